@@ -82,7 +82,7 @@ def gen_calib(rng, tier):
             else:
                 return None
     elif cyc:
-        case = mnet.gen_cycle_case(rng, grid=rng.random() < .12)
+        case = mnet.gen_cliquey_case(rng) if rng.random() < .35 else mnet.gen_cycle_case(rng, grid=rng.random() < .12)
     else:
         case = mnet.gen_mn_case(rng, dup=False if kind == "fg" else None)
     if kind != "bn" and rng.random() < .25:
